@@ -409,6 +409,51 @@ pub fn run_c07(ctx: &Ctx) -> i32 {
     ctx.add("model_paths", states.len() as u64);
     par_io(ctx, &jobs, io_threads(), |&(i, wait, eof), l| replay_trace(ctx, &states[i], wait, eof, l));
 
+    // liveness while a search runs: `isready` (and `uci`) must be answered at once, before
+    // the search's bestmove, and `stop` must then produce the bestmove promptly
+    {
+        let cases: Vec<(usize, &str, &str)> = [2usize, 3, 5]
+            .iter()
+            .flat_map(|&p| [(p, "go movetime 3000", "isready"), (p, "go movetime 3000", "uci"), (p, "go", "isready")])
+            .collect();
+        par_io(ctx, &cases, cases.len(), |&(pi, go, probe), l| {
+            l.inc("liveness_sessions");
+            let mut s = Session::spawn();
+            s.send(POSITIONS[pi].0);
+            if s.barrier(HANG).is_err() {
+                ctx.violation("process-died", POSITIONS[pi].0, json!({}));
+                return;
+            }
+            s.send(go);
+            std::thread::sleep(Duration::from_millis(150));
+            let t0 = std::time::Instant::now();
+            s.send(probe);
+            let answer = if probe == "uci" { "uciok" } else { "readyok" };
+            let r = s.read_until(|l| l == answer, Duration::from_millis(1500));
+            let trace = vec![POSITIONS[pi].0.to_string(), go.to_string(), probe.to_string()];
+            match r {
+                Ok(lines) => {
+                    if lines.iter().any(|l| is_bestmove(l)) {
+                        ctx.violation("probe-answered-only-after-bestmove", trace.join("; "), json!({"trace": trace, "lines": lines, "latency_ms": t0.elapsed().as_millis() as u64}));
+                        return;
+                    }
+                }
+                Err((f, lines)) => {
+                    ctx.violation("no-answer-while-search-runs", trace.join("; "), json!({"trace": trace, "failure": format!("{:?}", f), "lines": lines, "explanation": "isready/uci sent 150 ms into a search of at least 3 s was not answered within 1.5 s"}));
+                    return;
+                }
+            }
+            s.send("stop");
+            if s.read_until(is_bestmove, Duration::from_secs(5)).is_err() {
+                ctx.violation("no-bestmove-after-stop", trace.join("; "), json!({"trace": trace, "transcript": s.transcript}));
+                return;
+            }
+            let (_, code, _, _) = s.finish(HANG);
+            if code != Some(0) {
+                ctx.violation("exit-status", trace.join("; "), json!({"status": code}));
+            }
+        });
+    }
     // position tracking: depth-first walk over every move path of length <= 3 (quick: the
     // third ply strided) from the start position and length <= 2 from special-rule roots.
     // After each subtree the parent's `position` command is sent again (a take-back: the
@@ -468,7 +513,7 @@ pub fn run_c07(ctx: &Ctx) -> i32 {
         ctx.get("commands") + ctx.get("tracking_commands"),
         traces + ctx.get("tracking_commands"),
         true,
-        "session model (stateright): every command path of length <= 3 over {ucinewgame, stop, position x menu, go x menu} (thorough: also uci/isready/quit, the full menus, and all length-4 paths over the quick alphabet) plus every position-go-position-go path; every model path - not only counterexamples - is replayed on a fresh `weechess uci` process with an isready barrier after each command and two timing answers (wait for bestmove / send the next command immediately); per go the number of bestmove lines up to the next collecting command must equal the model's prediction (1 iff the model position has a legal move) and each bestmove must be legal in the model position; exit status 0. Tracking: depth-first walk over every move path of length <= 3 (quick: third ply strided 1/7) from the start position and length <= 2 from the special-rule corpus, with the parent's command re-sent after every subtree (take-backs), FEN printed by `.state` vs. the model's",
+        "session model (stateright): every command path of length <= 3 over {ucinewgame, stop, position x menu, go x menu} (thorough: also uci/isready/quit, the full menus, and all length-4 paths over the quick alphabet) plus every position-go-position-go path; every model path - not only counterexamples - is replayed on a fresh `weechess uci` process with an isready barrier after each command and two timing answers (wait for bestmove / send the next command immediately); per go the number of bestmove lines up to the next collecting command must equal the model's prediction (1 iff the model position has a legal move) and each bestmove must be legal in the model position; exit status 0; liveness: `isready`/`uci` sent 150 ms into a search of >= 3 s must be answered within 1.5 s and before that search's bestmove, and `stop` must then yield the bestmove within 5 s. Tracking: depth-first walk over every move path of length <= 3 (quick: third ply strided 1/7) from the start position and length <= 2 from the special-rule corpus, with the parent's command re-sent after every subtree (take-backs), FEN printed by `.state` vs. the model's",
         &["the OS scheduler inside the engine process is not controlled: two timing answers per trace; finer timings are explored in-process by loom and the stop-instant enumerator", "the binary is built from the working tree with the hooks on; the hook only makes the default table size configurable (16 MiB here instead of 1 GiB)"],
     )
 }
